@@ -151,6 +151,12 @@ theorem no_leak {W mx : Nat} (hW : 0 < W) (R : Nat) (ops : List Op) (hok : ∀ o
   obtain ⟨L', hr, _, _, _, hq⟩ := hsat (fun _ _ => rfl)
   exact ⟨L', hr, hq⟩
 
+/-- (c') the hypothesis of `no_leak` is not vacuous: whenever the history itself completes, the
+    drop-everything suffix completes too (`Drop` has no panic branch) -/
+theorem no_leak_total {W mx : Nat} (R : Nat) (ops : List Op) {P1 : Pool}
+    (h : (exec W mx ops).res = .ok P1) : ∃ P', (exec W mx (ops ++ dropAll R)).res = .ok P' :=
+  run_append_drop_ok W mx ops (List.range R) Pool.empty 0 h
+
 -- ============================================================== (d) from_buffer, clone_from
 
 /-- unwrap a `Sat` triple -/
